@@ -958,6 +958,19 @@ theorem mu_roots_only (B : HBlock) (st st' : RepairSt) (h : st'.outstanding = st
   unfold mu; rw [h]
 
 
+/-- the request lies inside the block `B` -/
+def InBlock (B : HBlock) : Req → Prop
+  | .last _ => True
+  | .root _ i => i < B.n
+  | .shred _ i j => i < B.n ∧ j < TOTAL_SHREDS
+
+theorem inBlock_of_inv (B : HBlock) (cap : Nat) (σ : Sys) (hinv : RepInv B cap σ) (r : Req)
+    (hr : r ∈ σ.st.outstanding) (hb : r.bid = bidOf B) : InBlock B r := by
+  cases r with
+  | last b => trivial
+  | root b i => simp only [Req.bid] at hb; subst hb; exact hinv.reqRoot i hr
+  | shred b i j => simp only [Req.bid] at hb; subst hb; exact hinv.reqShred i j hr
+
 /-- **A correct response to an outstanding request makes progress**: it is admissible, removes only
     that request, and strictly decreases the weight of what is still requested. -/
 theorem honest_step (B : HBlock) (env : Nat → Content) (cap : Nat) (hwf : B.WF env cap)
@@ -1030,7 +1043,8 @@ theorem honest_step (B : HBlock) (env : Nat → Content) (cap : Nat) (hwf : B.WF
     requested (last-slice root > slice roots > shreds). -/
 theorem fair_extension (B : HBlock) (env : Nat → Content) (cap : Nat) (hwf : B.WF env cap)
     (hroots : ∀ i, i < B.n → B.root i ≠ 0) (hn32 : B.n ≤ 2 ^ 32) (σ : Sys) (hinv : RepInv B cap σ) :
-    ∃ ext : List Ev, (∀ e ∈ ext, Admissible B e) ∧ (∀ e ∈ ext, ∃ r, r.bid = bidOf B ∧ e = .resp (honestResp B r)) ∧
+    ∃ ext : List Ev, (∀ e ∈ ext, Admissible B e) ∧
+      (∀ e ∈ ext, ∃ r, r.bid = bidOf B ∧ InBlock B r ∧ e = .resp (honestResp B r)) ∧
       Fair env cap (honestResp B) (bidOf B) σ ext := by
   generalize hm : mu B σ.st = m
   induction m using Nat.strongRecOn generalizing σ with
@@ -1046,7 +1060,7 @@ theorem fair_extension (B : HBlock) (env : Nat → Content) (cap : Nat) (hwf : B
         · exact h1 e he
       · intro e he
         rcases List.mem_cons.mp he with rfl | he
-        · exact ⟨r, hb, rfl⟩
+        · exact ⟨r, hb, inBlock_of_inv B cap σ hinv r hout hb, rfl⟩
         · exact h2 e he
       · refine ⟨?_, h3⟩
         intro r' hr' hb'
